@@ -2507,6 +2507,21 @@ func (data *Data) newShardGroup(rpi *RetentionPolicyInfo, timestamp time.Time, e
 		// the first cell of the time domain starts before what int64 nanoseconds can hold: no point lies there
 		sgi.StartTime = time.Unix(0, models.MinNanoTime).UTC()
 	}
+	// The shard group duration may have been altered since the neighbouring groups were created, so the cell of the
+	// new duration can reach into them: clip the new group to its live neighbours of the same engine type, so that
+	// live groups never overlap. The group still contains timestamp, which no live group does.
+	for i := range rpi.ShardGroups {
+		sg := &rpi.ShardGroups[i]
+		if sg.EngineType != engineType || sg.Deleted() {
+			continue
+		}
+		if !sg.EndTime.After(timestamp) && sg.EndTime.After(sgi.StartTime) {
+			sgi.StartTime = sg.EndTime
+		}
+		if sg.StartTime.After(timestamp) && sg.StartTime.Before(sgi.EndTime) {
+			sgi.EndTime = sg.StartTime
+		}
+	}
 	return &sgi
 }
 
